@@ -91,6 +91,7 @@ type replayCase struct {
 	PartSizes     []int    `json:"part_sizes"`
 	PartSize      int      `json:"part_size"`
 	Total         int      `json:"total"`
+	N             int      `json:"n"`
 	Search        string   `json:"search"`
 	OpIDs         []int    `json:"op_ids"`
 	Ops           []string `json:"ops"`
@@ -127,7 +128,7 @@ func replay(r *vk.Run) {
 		}
 		if same && res.dump != dumpHash(base) {
 			sig := diffSignature(dumpOfVariant(base, ps, v), dump(base))
-			r.Violation("identity-collision:"+sig, "replayed: id unchanged by "+variantName(ps, v), rc)
+			r.Violation("part-set-hash-collision:"+sig, "replayed: id unchanged by "+variantName(ps, v), rc)
 		}
 	case rc.Search != "" && replayConsensus(r, rc.Search, rc.OpIDs, rc):
 		// phase D history, done
@@ -164,6 +165,9 @@ func replay(r *vk.Run) {
 		n := len(pc.genuine)
 		pc.linear(r)
 		pc.forgeriesAgainst(r, []int{0, 1, n / 2, n - 2, n - 1})
+	case rc.Phase == "lists":
+		// re-runs the list-commitment enumeration up to the recorded length
+		checkLists(r, rc.N)
 	case rc.Phase == "merkle":
 		// re-runs every case of the recorded tree size
 		checkMerkle(r, rc.Total, rc.Total)
@@ -357,6 +361,13 @@ func main() {
 	r.Set("consensus_reassembly_outcomes", dOutcomes)
 	lap("phase D (state machine)")
 
+	// ---------------- phase E: list commitments for every list length ----------------
+	eCases, eRoots := checkLists(r, r.Pick(12, 17))
+	r.Set("list_commitment_max_length", r.Pick(12, 17))
+	r.Set("list_commitment_cases", eCases)
+	r.Set("list_commitment_distinct_roots", eRoots)
+	lap("phase E (list commitments)")
+
 	// ---------------- phase A, all pairs of perturbations (last: the most expensive part) ----------------
 	pairCfgs := []blockCfg{{2, 2, 1}}
 	if !r.Quick() {
@@ -418,7 +429,7 @@ func main() {
 	r.Set("states", states)
 	r.Set("transitions", trans)
 	r.Set("traces_validated_against_impl", trans+int(deliveries))
-	r.Set("evaluations", st.variants+trans+int(deliveries)+mcases+shapeCases)
+	r.Set("evaluations", st.variants+trans+int(deliveries)+mcases+shapeCases+eCases)
 	r.Set("distinct_nontrivial", st.distinctIDs+states)
 	r.Set("rule", "A: every variant block is built fresh and both halves of its id are computed by the real code and compared with a codec-independent dump of its content (non-trivial = distinct id); "+
 		"B: BFS over delivery sequences into a real PartSet, state = set of received indices, every AddPart result and the observable set state compared with the reference (non-trivial = distinct state), completed sets read back and decoded on the consensus and block-store paths; "+
